@@ -153,6 +153,16 @@ def generate(g, tier):
     # host stack: deepest START chain at the largest CLI limit (known finding when it escapes as RecursionError)
     files, entry, _ = nest('start', 199)
     cases.append(dict(op='compile_file', file=entry, files=files, opts=dict(stack_limit=200), meta=dict(family='host-stack-start', exp='ok', nocorr=True)))
+    # the limit in force is the one of the project the file was OPENED in: an entry file that is a symbolic link into another folder, with
+    # a config.yaml next to the link (a small limit) and possibly another next to the target
+    for L in (6, 9):
+        for depth, exp in ((L - 1, 'ok'), (L, 'overflow'), (L + 3, 'overflow')):
+            body = '\n'.join('    ' * i + 'IF TRUE' for i in range(depth)) + '\n' + '    ' * depth + 'STRING x'
+            for target_cfg in (None, dict(stack_limit=50)):
+                cfgs = {'project': dict(stack_limit=L)}
+                if target_cfg: cfgs['shared'] = target_cfg
+                cases.append(dict(op='compile_file', file='project/deep.txt', files={'shared/deep.txt': body}, symlinks={'project/deep.txt': 'shared/deep.txt'}, cfgs=cfgs,
+                                  meta=dict(family='nest-symlinked-entry', L=L, k=depth, exp=exp, nocorr=True)))
     return cases
 
 
